@@ -543,12 +543,17 @@ impl Fstat for VirtualSystem {
 impl IsExecutableFile for VirtualSystem {
     /// Tests whether the specified file is executable or not.
     ///
-    /// The current implementation only checks if the file has any executable
-    /// bit in the permissions. The file owner and group are not considered.
+    /// The current implementation only checks if the file is a regular file
+    /// that has any executable bit in the permissions. The file owner and group
+    /// are not considered.
     fn is_executable_file(&self, path: &CStr) -> bool {
         let path = Path::new(UnixStr::from_bytes(path.to_bytes()));
         self.resolve_existing_file(AT_FDCWD, path, /* follow symlinks */ true)
-            .is_ok_and(|inode| inode.borrow().permissions.intersects(Mode::ALL_EXEC))
+            .is_ok_and(|inode| {
+                let inode = inode.borrow();
+                matches!(inode.body, FileBody::Regular { .. })
+                    && inode.permissions.intersects(Mode::ALL_EXEC)
+            })
     }
 }
 
